@@ -287,6 +287,9 @@ func Apply(l *Live, s *State, ev Event, tpls Templates) *StepOut {
 		if ev.B == "cordon" {
 			n.Spec.Taints = append(n.Spec.Taints, corev1.Taint{Key: "node.kubernetes.io/unschedulable", Effect: corev1.TaintEffectNoSchedule})
 			n.Spec.Unschedulable = true
+		} else if ev.B == "notready" { // what the node lifecycle controller puts on a NotReady node: both effects
+			n.Spec.Taints = append(n.Spec.Taints, corev1.Taint{Key: "node.kubernetes.io/not-ready", Effect: corev1.TaintEffectNoSchedule},
+				corev1.Taint{Key: "node.kubernetes.io/not-ready", Effect: corev1.TaintEffectNoExecute})
 		} else {
 			n.Spec.Taints = append(n.Spec.Taints, corev1.Taint{Key: "verif/taint", Value: "x", Effect: corev1.TaintEffect(ev.B)})
 		}
@@ -527,6 +530,11 @@ func Tpl(tag string) corev1.PodTemplateSpec {
 	// "X+metans" : template X whose own metadata carries a namespace and a generateName (legal, ignored for the pods)
 	if strings.Contains(tag, "+metans") {
 		t.Namespace, t.GenerateName = "elsewhere", "tpl-"
+	}
+	// "X+tolnr" : template X that tolerates node.kubernetes.io/not-ready:NoSchedule (an agent that must be scheduled before
+	// its node is Ready); the standard DaemonSet toleration for that key has the other effect
+	if strings.Contains(tag, "+tolnr") {
+		t.Spec.Tolerations = append(t.Spec.Tolerations, corev1.Toleration{Key: "node.kubernetes.io/not-ready", Operator: corev1.TolerationOpExists, Effect: corev1.TaintEffectNoSchedule})
 	}
 	// "X+side" : template X with a second container "side"
 	if strings.Contains(tag, "+side") {
